@@ -14,17 +14,21 @@ Proof. repeat split; reflexivity. Qed.
 
 (* with these values: an address is banned by a failure exactly when it reaches MaxFailures failures
    (or was banned already); PermanentBanAt adds nothing below it *)
-Lemma ban_threshold : forall s a,
-  banned (record_failure MaxFailures PermanentBanAt s a) a = true <->
+Lemma ban_threshold : forall mono s a,
+  banned (record_failure MaxFailures PermanentBanAt mono s a) a = true <->
   (banned s a = true \/ MaxFailures <= fails s a + 1).
 Proof.
-  intros s a. pose proof thresholds_sane as [H0 H1]. unfold record_failure.
-  destruct (PermanentBanAt <=? fails s a + 1) eqn:Hp; destruct (MaxFailures <=? fails s a + 1) eqn:Hm; cbn.
-  - unfold upd. rewrite N.eqb_refl. split; [intros _; right; lia|reflexivity].
-  - apply N.leb_le in Hp. apply N.leb_gt in Hm. lia.
-  - unfold upd. rewrite N.eqb_refl. apply N.leb_le in Hm. split; [intros _; right; lia|reflexivity].
-  - apply N.leb_gt in Hm. split; [intro H; left; exact H|intros [H|H]; [exact H|lia]].
+  intros mono s a. pose proof thresholds_sane as [H0 H1]. unfold record_failure, ban_req.
+  destruct (PermanentBanAt <=? fails s a + 1) eqn:Hp.
+  - cbn. unfold upd. rewrite N.eqb_refl. apply N.leb_le in Hp. split; [intros _; right; lia|reflexivity].
+  - destruct (MaxFailures <=? fails s a + 1) eqn:Hm.
+    + apply N.leb_le in Hm. cbn [banned set_fails permb].
+      match goal with |- context [if ?c then _ else _] => destruct c eqn:E end; cbn.
+      * apply Bool.andb_true_iff in E as [E _]. apply Bool.andb_true_iff in E as [_ E]. rewrite E. split; [intros _; left; reflexivity|reflexivity].
+      * unfold upd. rewrite N.eqb_refl. split; [intros _; right; lia|reflexivity].
+    + apply N.leb_gt in Hm. cbn. split; [intro H; left; exact H|intros [H|H]; [exact H|lia]].
 Qed.
+
 (* extractIP = the peer address without port and zone, for every address shape the handshake can see: *net.TCPAddr and
    *net.UDPAddr (IPv4, IPv4-mapped, global IPv6, zone-scoped link-local IPv6) and generic net.Addr values whose string is
    "host:port", with or without a zone (the generic-with-zone row was the finding repaired by a253559). *)
